@@ -195,8 +195,15 @@ func checkC15(ci interface{}, st *Stats) error {
 			}
 			n := 0
 			var eachErr error
+			other := maps[(i+1)%len(maps)]
 			m.Each(func(k, v int) {
 				n++
+				// reading other values (and this one) while iterating must not disturb the iteration
+				// (the iteration over another map comes last: nothing after it may put things right again)
+				m.Each(func(int, int) {})
+				sets[i%len(sets)].Each(func(int) {})
+				_ = other.Keys()
+				other.Each(func(int, int) {})
 				if mv, ok := mmaps[i][k]; !ok || mv != v {
 					eachErr = fmt.Errorf("after step %d (%s): map #%d Each visits %d=%d, the model says %d (present %v)", step, what, i, k, v, mv, ok)
 				}
